@@ -42,7 +42,7 @@ ANCHORS = ['pfhedge.nn.modules.hedger:Hedger.compute_hedge',
            'pfhedge.nn.modules.hedger:Hedger.price',
            'pfhedge.nn.functional:quadratic_cvar']
 DECIDING = ["grad.matches_fd", "nograd.no_graph", "grad.enable_grad_has_graph"]
-REQUIRED_BRANCHES = ["branch.stepwise", "branch.vectorised", "cost>0", "criterion.QuadraticCVaR.concentrated", "mode.eval", "mode.train",
+REQUIRED_BRANCHES = ["grad_after_no_grad_pass", "branch.stepwise", "branch.vectorised", "cost>0", "criterion.QuadraticCVaR.concentrated", "mode.eval", "mode.train",
                      "output_activation.saves_output", "H>1"]
 
 
@@ -135,6 +135,13 @@ def drv_grad(ctx, k, rng):
 
     def loss():
         return hedger.criterion(hedger.compute_portfolio(derivative, hedge), derivative.payoff())
+
+    if rng.random() < 0.5:
+        # an evaluation-only pass first (as fit()'s validation does): nothing it leaves behind may cut the graph of the next pass
+        with torch.no_grad():
+            loss()
+            hedger.compute_hedge(derivative, hedge)
+        ctx.branch("grad_after_no_grad_pass")
 
     mon = "grad.matches_fd"
     sig = (mk, oa, "stepwise" if prev else "vectorised", ck, stock.cost > 0, n_h, mode, extra)
